@@ -327,3 +327,172 @@ Lemma failing_setup_witness :
   rbegins r1 = [OFxSetup 1; OFxSetup 2] /\ rs_failed r1 = true /\
   rbegins (run_teardown_funcs (fun _ => IGlobal) None kept r_init) = [OFxTeardown 1].
 Proof. vm_compute; repeat split. Qed.
+
+(* ================================================================ a whole test task *)
+(* TestTask.run: setup_test, then the test-scoped fixtures, then the body — only if every setup completed without a
+   failure —, then the teardowns of what was set up, in reverse: the fixtures last set up first, teardown_test last. *)
+Definition test_pairs (p : path) (hk : hooks) (fxs : list fixture) : list pair :=
+  (match h_setup_test hk with Some sc => Some (SSetupTest p sc) | None => None end,
+   match h_teardown_test hk with Some sc => Some (TTeardownTest p sc) | None => None end) :: fixture_pairs fxs.
+
+Lemma teardowns_of_only : forall pairs, teardowns_of (only_teardowns pairs) = teardowns_of (map snd pairs).
+Proof.
+  intros pairs; unfold only_teardowns; induction (map snd pairs) as [|f l IH]; [reflexivity|].
+  simpl; destruct f as [f|]; simpl; [unfold teardowns_of in *; simpl; rewrite IH; reflexivity|exact IH].
+Qed.
+
+Lemma teardowns_of_none : forall kept, any_teardown kept = false -> teardowns_of kept = [].
+Proof.
+  induction kept as [|f kept IH]; [reflexivity|]; simpl; destruct f as [f|]; [discriminate|exact IH].
+Qed.
+
+Lemma finish_died : forall r kept, to_res (finish r kept) <> TkDied -> rs_died r = false.
+Proof. intros r kept; unfold finish; simpl; destruct (rs_died r); [intros H; contradiction H; reflexivity|reflexivity]. Qed.
+
+Theorem test_run_user_code_order : forall env p suite t hk fxs,
+  to_res (test_run env p suite t hk fxs) <> TkDied ->
+  exists done rest, test_pairs p hk fxs = done ++ rest /\
+    begins (to_main (test_run env p suite t hk fxs)) =
+      setups_of done ++ (match rest with q :: _ => sf_owners (fst q) | [] => [OBody p] end) ++
+      rev (teardowns_of (map snd done)).
+Proof.
+  intros env p suite t hk fxs; unfold test_run; fold (test_pairs p hk fxs).
+  set (pairs := test_pairs p hk fxs).
+  set (s1 := set_step SdSetupTest [] (fresh_cursor (LTest p) [AtFire (RTestStart p)])).
+  assert (B1 : rbegins (mkRs s1 false [] false) = []).
+  { change (nb s1 = []); unfold s1; rewrite nb_set_step; reflexivity. }
+  assert (S1 : sound_state (mkRs s1 false [] false)) by (split; reflexivity).
+  (* the setups *)
+  assert (SETUP : forall r1 kept,
+            (if any_setup pairs then run_setup_funcs env (Some suite) pairs (mkRs s1 false [] false) []
+             else (mkRs s1 false [] false, only_teardowns pairs)) = (r1, kept) ->
+            exists done rest, pairs = done ++ rest /\ teardowns_of kept = teardowns_of (map snd done) /\
+              (rest = [] -> sound_state r1 /\ rbegins r1 = setups_of done) /\
+              (forall q rest', rest = q :: rest' -> (rs_failed r1 = true \/ rs_died r1 = true) /\
+                                                   rbegins r1 = setups_of done ++ sf_owners (fst q))).
+  { intros r1 kept H; destruct (any_setup pairs) eqn:A.
+    - destruct (setup_funcs_prefix env (Some suite) pairs _ [] r1 kept H S1) as [done [rest [E [K [A1 A2]]]]].
+      exists done, rest; rewrite B1 in *; simpl in *; subst kept; repeat split; auto.
+      + apply A1; assumption.
+      + apply A1; assumption.
+      + apply A1; assumption.
+      + apply (A2 q rest'); assumption.
+      + apply (A2 q rest'); assumption.
+    - inversion H; subst; exists pairs, []; rewrite app_nil_r; split; [reflexivity|]; split; [apply teardowns_of_only|]; split.
+      + intros _; split; [exact S1|]. rewrite B1.
+        clear - A. unfold setups_of. induction pairs as [|[sf td] l IH]; [reflexivity|].
+        simpl in A. destruct sf as [f|]; [discriminate|]. simpl. apply IH; exact A.
+      + intros q rest' E; discriminate. }
+  destruct (if any_setup pairs then run_setup_funcs env (Some suite) pairs (mkRs s1 false [] false) []
+            else (mkRs s1 false [] false, only_teardowns pairs)) as [r1 kept] eqn:RS.
+  destruct (SETUP r1 kept eq_refl) as [done [rest [E [K [A1 A2]]]]]; clear SETUP.
+  destruct (rs_died r1) eqn:D1; [intros H; apply finish_died in H; congruence|].
+  (* the body *)
+  set (r2 := if rs_failed r1 then r1 else _).
+  assert (B2 : rbegins r2 = setups_of done ++ match rest with q :: _ => sf_owners (fst q) | [] => [OBody p] end /\
+               (rest = [] \/ rs_failed r1 = true)).
+  { destruct rest as [|q rest'].
+    - destruct (A1 eq_refl) as [[F _] Bg]. unfold r2; rewrite F.
+      split; [|left; reflexivity].
+      set (x := run_script (OBody p) env (tt_body t) (set_step (SdTest (tt_name t)) [] (rs_t r1)) false (rs_children r1)).
+      assert (Bx : nb (sr_state x) = setups_of done ++ [OBody p]).
+      { unfold x; rewrite nb_run_script, nb_set_step; change (nb (rs_t r1)) with (rbegins r1); rewrite Bg; reflexivity. }
+      destruct (sr_raised x); [rewrite rbegins_after_exception|]; exact Bx.
+    - destruct (A2 q rest' eq_refl) as [[F|F] Bg]; [|congruence].
+      unfold r2; rewrite F; split; [exact Bg|right; reflexivity]. }
+  destruct B2 as [B2 _].
+  destruct (rs_died r2) eqn:D2; [intros H; apply finish_died in H; congruence|].
+  (* the teardowns *)
+  set (r3 := if any_teardown kept then _ else r2).
+  intros H.
+  assert (D3 : rs_died r3 = false).
+  { destruct (rs_died r3) eqn:D3; [apply finish_died in H; congruence|reflexivity]. }
+  rewrite D3 in H |- *.
+  exists done, rest; split; [exact E|].
+  transitivity (nb (fire (RTestEnd p) (end_step_if_any [] (rs_t r3)))); [reflexivity|].
+  rewrite nb_fire, nb_end_step_if_any. change (nb (rs_t r3)) with (rbegins r3).
+  assert (B3 : rbegins r3 = rbegins r2 ++ rev (teardowns_of kept)).
+  { unfold r3 in *; destruct (any_teardown kept) eqn:AT.
+    - rewrite (teardown_funcs_all_in_reverse _ _ _ _ D3). f_equal.
+      exact (nb_set_step SdTeardownTest [] (rs_t r2)).
+    - rewrite (teardowns_of_none kept AT); simpl; rewrite app_nil_r; reflexivity. }
+  rewrite B3, B2, K, <- app_assoc; reflexivity.
+Qed.
+
+(* witness: setup_test, two generator fixtures, body, then teardowns 2, 1, teardown_test *)
+Lemma test_run_order_witness :
+  let hk := mkHooks None None (Some []) (Some []) in
+  let fxs := [mkFixture 1 ScTest [] false false true [] []; mkFixture 2 ScTest [] false false true [] []] in
+  begins (to_main (test_run (fun _ => IGlobal) [5; 7] [5] (mkTest 7 false [] [] [] []) hk fxs)) =
+  [OSetupTest [5; 7]; OFxSetup 1; OFxSetup 2; OBody [5; 7]; OFxTeardown 2; OFxTeardown 1; OTeardownTest [5; 7]].
+Proof. vm_compute. reflexivity. Qed.
+
+(* ================================================================ the suite / session phases: two tasks *)
+(* A setup task (session setup, suite setup) keeps the teardowns of the pairs it set up; the matching teardown task, run
+   after every consumer whatever their outcome (C03_setup_before_consumers_teardown_after), receives them. *)
+Lemma teardown_phase_order : forall env l st en isst d kept,
+  to_res (teardown_phase env l st en isst d kept) <> TkDied ->
+  begins (to_main (teardown_phase env l st en isst d kept)) = rev (teardowns_of kept).
+Proof.
+  intros env' l' st' en' isst' d' kept; unfold teardown_phase; destruct (any_teardown kept) eqn:AT.
+  - set (s0 := set_step d' [] (hold st' (fresh_cursor l' []))).
+    destruct (rs_died (run_teardown_funcs env' None kept (mkRs s0 false [] false))) eqn:D; [intros H; apply finish_died in H; congruence|].
+    intros _. cbn [to_main].
+    transitivity (nb (discard_or_fire isst' en' (end_step_if_any [] (rs_t (run_teardown_funcs env' None kept (mkRs s0 false [] false))))));
+      [reflexivity|].
+    rewrite nb_discard_or_fire, nb_end_step_if_any.
+    change (nb (rs_t ?r)) with (rbegins r).
+    rewrite (teardown_funcs_all_in_reverse _ _ _ _ D).
+    change (rbegins (mkRs s0 false [] false)) with (nb s0). unfold s0; rewrite nb_set_step, nb_hold; reflexivity.
+  - intros _; rewrite (teardowns_of_none kept AT); reflexivity.
+Qed.
+
+Lemma setup_phase_order : forall env l st en isst d pairs,
+  to_res (setup_phase env l st en isst d pairs) <> TkDied ->
+  exists done rest, pairs = done ++ rest /\
+    begins (to_main (setup_phase env l st en isst d pairs)) =
+      setups_of done ++ (match rest with q :: _ => sf_owners (fst q) | [] => [] end) /\
+    teardowns_of (to_kept (setup_phase env l st en isst d pairs)) = teardowns_of (map snd done) /\
+    (rest = [] <-> to_res (setup_phase env l st en isst d pairs) = TkSuccess).
+Proof.
+  intros env l st en isst d pairs; unfold setup_phase. destruct (any_setup pairs) eqn:A.
+  - set (s0 := set_step d [] (hold st (fresh_cursor l []))).
+    assert (B0 : rbegins (mkRs s0 false [] false) = []).
+    { change (nb s0 = []); unfold s0; rewrite nb_set_step, nb_hold; reflexivity. }
+    destruct (run_setup_funcs env None pairs (mkRs s0 false [] false) []) as [r kept] eqn:RS.
+    destruct (setup_funcs_prefix env None pairs _ [] r kept RS (conj eq_refl eq_refl)) as [done [rest [E [K [A1 A2]]]]].
+    simpl in K; rewrite B0 in A1, A2; simpl in A1, A2.
+    destruct (rs_died r) eqn:D; [intros H; apply finish_died in H; congruence|].
+    intros _. exists done, rest; split; [exact E|]. cbn [to_kept finish].
+    split; [|split].
+    + transitivity (nb (discard_or_fire isst en (end_step_if_any [] (rs_t r)))); [reflexivity|].
+      rewrite nb_discard_or_fire, nb_end_step_if_any. change (nb (rs_t r)) with (rbegins r).
+      destruct rest as [|q rest']; [rewrite app_nil_r; apply A1; reflexivity|apply (A2 q rest'); reflexivity].
+    + rewrite K; reflexivity.
+    + cbn [to_res rs_died rs_failed]. split.
+      * intros Er; destruct (A1 Er) as [[F _] _]; rewrite F; reflexivity.
+      * intros R; destruct rest as [|q rest']; [reflexivity|].
+        destruct (A2 q rest' eq_refl) as [[F|F] _]; [rewrite F in R; discriminate|congruence].
+  - intros _. exists pairs, []; rewrite app_nil_r; split; [reflexivity|]. cbn [to_kept to_main to_res].
+    split; [|split].
+    + clear - A. unfold setups_of. induction pairs as [|[sf td] l0 IH]; [reflexivity|].
+      simpl in A. destruct sf as [f|]; [discriminate|]. simpl. apply IH; exact A.
+    + apply teardowns_of_only.
+    + split; reflexivity.
+Qed.
+
+Theorem setup_phase_then_teardown_phase : forall env env' l l' st en isst d st' en' isst' d' pairs,
+  to_res (setup_phase env l st en isst d pairs) <> TkDied ->
+  to_res (teardown_phase env' l' st' en' isst' d' (to_kept (setup_phase env l st en isst d pairs))) <> TkDied ->
+  exists done rest, pairs = done ++ rest /\
+    begins (to_main (setup_phase env l st en isst d pairs)) =
+      setups_of done ++ (match rest with q :: _ => sf_owners (fst q) | [] => [] end) /\
+    begins (to_main (teardown_phase env' l' st' en' isst' d' (to_kept (setup_phase env l st en isst d pairs)))) =
+      rev (teardowns_of (map snd done)) /\
+    (rest = [] <-> to_res (setup_phase env l st en isst d pairs) = TkSuccess).
+Proof.
+  intros env env' l l' st en isst d st' en' isst' d' pairs H1 H2.
+  destruct (setup_phase_order env l st en isst d pairs H1) as [done [rest [E [B [K R]]]]].
+  exists done, rest; split; [exact E|split; [exact B|split; [|exact R]]].
+  rewrite (teardown_phase_order _ _ _ _ _ _ _ H2), K; reflexivity.
+Qed.
